@@ -113,6 +113,22 @@ class C18(props.Prop):
             spec['opts'] += ['-j', '1']
         # commands sensitive to symbol names (they are: functions of tokens)
         spec['model']['canon_fresh'] = False
+        if rng.random() < 0.3:
+            # a command that is slow on some of the inputs it fails on (always
+            # far below an explicit time limit): only the timing differs
+            # between the variants, never the outcome
+            cl = spec['model']['classes']
+            cl['slowbug'] = dict(cl['bug'])
+            cl['slowbug']['beh'] = ['normal', rng.choice([1.2, 1.5, 2.0])]
+            rules = []
+            for pred, c in spec['model']['rules']:
+                if c == 'bug':
+                    rules.append([{'k': 'and', 'a': [pred, {
+                        'k': 'hash', 'p': rng.choice([0.3, 0.5]),
+                        'salt': rng.randrange(1 << 30)}]}, 'slowbug'])
+                rules.append([pred, c])
+            spec['model']['rules'] = rules
+            spec['opts'] += ['--timeout', str(rng.choice([20, 30]))]
         reg = mutator_registry()
         k = rng.random()
         if k < 0.3:
